@@ -8,8 +8,9 @@
     verifsync.RWMutex (channel based, see verifsync.go.txt); sync.WaitGroup stays the
     real one (synctest handles WaitGroups of the bubble).
 (b) the virtual package internal/verifsync is added.
-(c) detection self-test only (K5_MUTATION / 2nd argument): a mutated copy of
-    internal/replication/pipeline.go is added. Never used by ./check.
+(c) detection self-test only (K5_MUTATION / 2nd argument, see DESIGN §8): a mutated copy of
+    pipeline.go (a,b,c,d,f) or manager.go (e) is put in the overlay. Never used by ./check;
+    run.sh keeps such builds in their own directory and binary.
 Nothing under /repo is written.
 """
 import json, os, re, sys
